@@ -174,7 +174,7 @@ pub fn run_plan(b: u64, plan: &Value, seed: u64, out: &mut Out) -> (u64, bool) {
                 if code < 0 {
                     return Reply::Silent;
                 } else if code > 0 {
-                    krpc::error(&m.tid, code, "scripted")
+                    krpc::error(&m.tid, code, &krpc::error_text(code, me.idx))
                 } else {
                     krpc::response(&m.tid, &me.id, B::dict(), Some(&w.from))
                 }
